@@ -10,6 +10,12 @@ import (
 type lazyHavocRec struct {
 	pat string
 	tag string
+	// newOnly: only objects allocated after this point were written ("assigns new:T"):
+	// at the addresses in alloc the array is what it was before
+	newOnly bool
+	alloc   *Term
+	// only: the one address that was written ("assigns T@param"); every other cell is kept
+	only *Term
 }
 
 func (x *Exec) onFuncEntry(fr *Frame, st *State, ctx *FuncCtx)                 {}
